@@ -113,6 +113,20 @@ func (s sorter) Less(i, j int) bool {
 	return b
 }
 
+type byteSorter struct {
+	in   *Interp
+	b    []byte
+	less *FuncV
+}
+
+func (s byteSorter) Len() int      { return len(s.b) }
+func (s byteSorter) Swap(i, j int) { s.b[i], s.b[j] = s.b[j], s.b[i] }
+func (s byteSorter) Less(i, j int) bool {
+	r := s.in.apply(s.less, []Value{int64(i), int64(j)}, token.NoPos)
+	b, _ := r[0].(bool)
+	return b
+}
+
 func (in *Interp) native(fv *FuncV, args []Value, at token.Pos) []Value {
 	name := load.FullName(fv.Obj)
 	recv := fv.Recv
@@ -195,7 +209,13 @@ func (in *Interp) native(fv *FuncV, args []Value, at token.Pos) []Value {
 	case "strconv.FormatInt":
 		return []Value{strconv.FormatInt(args[0].(int64), int(args[1].(int64)))}
 	case "strconv.FormatUint":
-		return []Value{strconv.FormatUint(uint64(args[0].(int64)), int(args[1].(int64)))}
+		switch v := args[0].(type) {
+		case U64:
+			return []Value{strconv.FormatUint(uint64(v), int(args[1].(int64)))}
+		case int64:
+			return []Value{strconv.FormatUint(uint64(v), int(args[1].(int64)))}
+		}
+		panic(evalErr("strconv.FormatUint of %T", args[0]))
 	case "strconv.Quote":
 		return []Value{strconv.Quote(str(args[0]))}
 	case "strconv.Unquote":
@@ -254,6 +274,11 @@ func (in *Interp) native(fv *FuncV, args []Value, at token.Pos) []Value {
 		}
 		return nil
 	case "sort.Slice", "sort.SliceStable":
+		if bs, isBytes := args[0].([]byte); isBytes {
+			// a byte slice is held natively; the less function indexes the same backing array
+			sort.Stable(byteSorter{in, bs, args[1].(*FuncV)})
+			return nil
+		}
 		s, ok := args[0].(*SliceV)
 		if !ok {
 			if args[0] == nil {
